@@ -23,22 +23,39 @@ SPEC = Spec(
          "nils, scalars; nil and non-map sources); mixed = 2-4 sources with references plus a token value. Providers: in-memory, "
          "3 schemes x 9 names, values through NewRetrievedFromYAML (27 plain, 23 with $/references/cycles) or NewRetrieved "
          "(maps, lists, scalars, nil); default scheme on/off. Observed: the resolved Conf with expandedValue leaves, ToStringMap, "
-         "and Conf.Unmarshal of every top-level key into string/int/bool fields. non-trivial = a token value with a reference "
+         "and Conf.Unmarshal of every top-level key into string / named string / *string / struct{V string} / []string / map[string]string / "
+         "float64 / TextUnmarshaler struct / any / int / bool fields. typed stream (1/6): whole-value references to provider texts of every "
+         "YAML kind (one third YAML null: null ~ Null NULL), also inside a []string and a map[string]string and under a nested key. env "
+         "harness (external package e2etest): the real envprovider behind a recording wrapper, ${env:NAME}, ${NAME}, ${env:NAME:-default}, "
+         "unset and invalid names, ToStringMap + string/any decoding. non-trivial = a token value with a reference "
          "and an escape, or more than one source; distinct = distinct op sequences.",
     trusted_base=[
         "Lean 4.33.0 kernel; axioms per theorem under axioms_per_theorem",
-        "hand-written model of confmap/expand.go, resolver.go Resolve/escapeDollarSigns, provider.go Retrieved, confmap.go "
-        "sanitize/useExpandValue and koanf maps.Merge/Flatten/Keys/Unflatten, tied by exact differential on every run",
+        "hand-written model (no translator) of confmap/expand.go, resolver.go Resolve/escapeDollarSigns, provider.go Retrieved, confmap.go "
+        "sanitize/useExpandValue and koanf maps.Merge/Flatten/Keys/Unflatten, tied by exact differential on every run; the loop bound 1000 "
+        "and schemePattern are hand-copied constants pinned by corpus cases 10/11 and the rand pieces",
         "YAML parsing (NewRetrievedFromYAML) is an input: the harness sends the parsed value and string representation the real "
-        "constructor produced",
-        "mapstructure decoding into string/int/bool fields is modelled only for the value kinds observed (float/other kinds skipped for int)",
+        "constructor (or, in the env harness, the real envprovider) produced",
+        "mapstructure decoding is modelled for the targets string, named string, *string, struct{V string}, []string, map[string]string, "
+        "float64, a TextUnmarshaler struct, any, int, bool and only for the value kinds observed (Go struct values such as time.Time are "
+        "skipped for the container/struct/float/int targets); time.Duration and other hook targets are not modelled",
         "Go map iteration order: when several children of one map fail, the reported error class is taken from the implementation "
-        "if it is among the classes the model finds possible",
+        "if it is among the classes the model finds possible; only the error CLASS is compared",
+        "termination of the real code rests on the harness watchdog (8 s deadline + provider call budget), termination of the model on "
+        "structural recursion",
     ],
     assumptions=[
         "providers are pure functions of (scheme, name) during one Resolve",
         "map keys do not contain the koanf delimiter '::'",
         "the confmap.enableMergeAppendOption feature gate is off (default)",
         "converters are not part of the property and are not configured",
+        "theorems about expansion with references are for the unambiguous token fragment (provider strings free of '$'; not a bare "
+        "reference), for embedded references with arbitrary provider text one round at a time (C12_embedded_substituted), for nested "
+        "references the innermost-first search (C12_nested_innermost_first); multi-round resolution of provider values that contain "
+        "references/escapes, and references inside map/list provider values, are tied by the differential and the leftover/sem oracles",
+        "no theorem states that unflatten (flatten m) is lookup-equivalent to m: the stages of `resolve` are related by C12_resolve_ok / "
+        "C12_resolve_plain up to that round trip, which is differential only",
+        "cycle theorems cover the identical whole-value 1-cycle and every embedded self-reference; longer cycles (A->B->A), cycles through "
+        "map/list values: differential + corpus",
     ],
 )
